@@ -31,7 +31,7 @@ private theorem imp_attrDecls_roles (vendor : Bool) (a : Attribute) (vals : List
 
 /-! ### the validity loops -/
 
-private theorem imp_checkAttrs_valid (cfg : Cfg) (vendor : Bool) (as : List Attribute) :
+theorem imp_checkAttrs_valid (cfg : Cfg) (vendor : Bool) (as : List Attribute) :
     ∀ (seen seen' : List Bytes), checkAttrs cfg vendor seen as = .ok seen' →
       ∀ a ∈ as, invalidAttr cfg vendor a = false := by
   induction as with
@@ -51,12 +51,12 @@ private theorem imp_checkAttrs_valid (cfg : Cfg) (vendor : Bool) (as : List Attr
           · exact ih _ _ h a ha
 
 /-- a vendor as emitted -/
-private def imp_mkEV (cfg : Cfg) (o : Options) (v : Vendor) : EVendor :=
+def imp_mkEV (cfg : Cfg) (o : Options) (v : Vendor) : EVendor :=
   ⟨v.name, v.number,
     sortAttrs cfg (if cfg.dropIgnoredVendorAttrs then kept o v.attributes else v.attributes),
     sortValues v.values⟩
 
-private theorem imp_checkVendors_struct (cfg : Cfg) (o : Options) (vs : List Vendor) :
+theorem imp_checkVendors_struct (cfg : Cfg) (o : Options) (vs : List Vendor) :
     ∀ (seen vseen : List Bytes) (r : List EVendor × List Imp),
       checkVendors cfg o seen vseen vs = .ok r →
       r.1 = vs.map (imp_mkEV cfg o)
@@ -97,7 +97,7 @@ private theorem imp_checkVendors_struct (cfg : Cfg) (o : Options) (vs : List Ven
 
 /-! ### shape of a successful `generate` -/
 
-private def imp_secs (attrs : List Attribute) (evs : List EVendor) (locals : List Value)
+def imp_secs (attrs : List Attribute) (evs : List EVendor) (locals : List Value)
     (extSecs : List (Origin × List Decl)) : List (Origin × List Decl) :=
   attrs.map (fun a => (Origin.attr false a, [(⟨.const, .typeConst, identifier a.name ++ bs "_Type", [], [.radiusType]⟩ : Decl)]))
   ++ evs.map (fun v => (Origin.vendor v.name, [(⟨.const, .vendorId, bs "_" ++ identifier v.name ++ bs "_VendorID", [], [.untyped]⟩ : Decl)]))
@@ -106,7 +106,7 @@ private def imp_secs (attrs : List Attribute) (evs : List EVendor) (locals : Lis
   ++ evs.flatMap (fun v => (Origin.vendor v.name, vendorHelperDecls (identifier v.name))
       :: v.attrs.map (fun a => (Origin.attr true a, attrDecls true a v.values)))
 
-private theorem imp_gen_struct (cfg : Cfg) (d : Dictionary) (o : Options) (out : Output)
+theorem imp_gen_struct (cfg : Cfg) (d : Dictionary) (o : Options) (out : Output)
     (h : generate cfg d o = .ok out) :
     ∃ (seen : List Bytes) (r : List EVendor × List Imp) (locals : List Value)
       (extSecs : List (Origin × List Decl)) (dots : List Bytes),
@@ -218,7 +218,7 @@ private theorem imp_needed_vend (i : Imp) (evs : List EVendor) (f : EVendor → 
 
 /-! ### membership in the emitted sections -/
 
-private theorem imp_mem_secs {attrs : List Attribute} {evs : List EVendor} {locals : List Value}
+theorem imp_mem_secs {attrs : List Attribute} {evs : List EVendor} {locals : List Value}
     {extSecs : List (Origin × List Decl)} {s : Origin × List Decl}
     (hs : s ∈ imp_secs attrs evs locals extSecs) :
     (∃ a ∈ attrs, s.1 = Origin.attr false a) ∨ (∃ v ∈ evs, s.1 = Origin.vendor v.name) ∨ s ∈ extSecs
@@ -232,17 +232,17 @@ private theorem imp_mem_secs {attrs : List Attribute} {evs : List EVendor} {loca
   · exact Or.inr (Or.inl ⟨v, hv, rfl⟩)
   · exact Or.inr (Or.inr (Or.inr ⟨v, hv, a, ha, rfl⟩))
 
-private theorem imp_mem_kept {o : Options} {as : List Attribute} {a : Attribute} :
+theorem imp_mem_kept {o : Options} {as : List Attribute} {a : Attribute} :
     a ∈ kept o as ↔ a ∈ as ∧ a.name ∉ o.ignore := by
   simp [kept]
 
-private theorem imp_kept_eq_self (o : Options) (as : List Attribute)
+theorem imp_kept_eq_self (o : Options) (as : List Attribute)
     (h : ∀ a ∈ as, a.name ∉ o.ignore) : kept o as = as := by
   simp only [kept, List.filter_eq_self]
   intro a ha
   simpa using h a ha
 
-private theorem imp_mkEV_attrs (cfg : Cfg) (o : Options) (w : Vendor)
+theorem imp_mkEV_attrs (cfg : Cfg) (o : Options) (w : Vendor)
     (hdrop : cfg.dropIgnoredVendorAttrs = true ∨ ∀ a ∈ w.attributes, a.name ∉ o.ignore) (a : Attribute) :
     a ∈ (imp_mkEV cfg o w).attrs ↔ a ∈ kept o w.attributes := by
   simp only [imp_mkEV, sortAttrs, mem_sortStable]
